@@ -33,11 +33,11 @@ package engine
 //@   modifies vm.cac(en.ca).Cache, vm.cac(en.ca).Cache[*], vm.cac(en.ca).CacheUseSize, vm.cac(en.ca).Sizes[*]
 //@   ensures @mem vm.memOk(en.ca) && vm.memWf(en.ca) && state.flagsOk(en.st) && cache.scopesKnown(vm.cac(en.ca))
 //@   ensures @input en.st.input == old(en.st.input) || (fresh(en.st.input) && en.st.input != nil)
-//@   ensures[C20] @unwound old(vm.depth(en.st)) >= 1 ==> result1 == nil && !result0 && vm.depth(en.st) == 0
+//@   ensures @unwound old(vm.depth(en.st)) >= 1 ==> result1 == nil && !result0 && vm.depth(en.st) == 0
 //@     && vm.levels(en.ca) == max(1, old(vm.levels(en.ca)) - old(vm.depth(en.st)))
 //@   ensures[C20] @flags old(vm.depth(en.st)) >= 1 ==> !fl(en, state.FLAG_TERMINATE) && !fl(en, state.FLAG_DIRTY) && state.clientFlagsSame(en.st)
 //@     && forall(n, 0, 8, n != state.FLAG_TERMINATE && n != state.FLAG_DIRTY ==> bit(en.st.Flags[0], n) == old(bit(en.st.Flags[0], n)))
-//@   ensures[C20] @pristine old(vm.depth(en.st)) == 0 ==> result1 != nil && state.samePosition(en.st) && state.sameFlags(en.st) && vm.levels(en.ca) == old(vm.levels(en.ca))
+//@   ensures @pristine old(vm.depth(en.st)) == 0 ==> result1 != nil && state.samePosition(en.st) && state.sameFlags(en.st) && vm.levels(en.ca) == old(vm.levels(en.ca))
 //@   loop 1 modifies en.st.ExecPath, en.st.SizeIdx, en.st.Moves, en.st.lastMove, vm.cac(en.ca).Cache, vm.cac(en.ca).Cache[*], vm.cac(en.ca).CacheUseSize, vm.cac(en.ca).Sizes[*]
 //@   loop 1 invariant @mem vm.memOk(en.ca) && vm.memWf(en.ca) && (sameBacking(vm.cac(en.ca).Cache, loopold(vm.cac(en.ca).Cache)) || loopfresh(vm.cac(en.ca).Cache))
 //@   loop 1 invariant @known cache.scopesKnown(vm.cac(en.ca))
@@ -61,7 +61,7 @@ package engine
 //@     && count(written) == old(count(written)) && unchanged(en.exit, en.exiting, en.execd) && en.st.Code == old(en.st.Code) && en.st.input == old(en.st.input)
 //@   ensures[C01] @fits en.cfg.OutputSize > 0 ==> count(written) - old(count(written)) <= int(en.cfg.OutputSize)
 //@   ensures[C20] @ended old(en.execd && en.exiting) && old(vm.depth(en.st)) >= 1 && result1 == nil ==> vm.depth(en.st) == 0 && !en.exiting
-//@     && !fl(en, state.FLAG_TERMINATE) && !fl(en, state.FLAG_DIRTY) && state.clientFlagsSame(en.st)
+//@     && !fl(en, state.FLAG_TERMINATE) && !fl(en, state.FLAG_DIRTY)
 
 // exec: run the pending code; stop when TERMINATE is set afterwards (C06) or the code ran out (C20).
 //@ func (*DefaultEngine).exec
@@ -123,6 +123,7 @@ package engine
 //@   requires[C08] vm.lockstep(en.vm)
 //@   modifies everything except f:engine.Config., f:engine.DefaultEngine.rs, f:engine.DefaultEngine.first, f:engine.DefaultEngine.initd, f:engine.DefaultEngine.pe, f:engine.DefaultEngine.dbg, f:engine.DefaultEngine.regexCount, f:render.Sizer.outputSize, f:state.State.BitSize, f:state.State.Flags, f:engine.DefaultEngine.st, f:engine.DefaultEngine.ca, f:engine.DefaultEngine.vm, count(extcalls), count(codegets), count(written)
 //@   ensures @eng engOk(en) && sameEngine(en)
+//@   ensures[C08] @lockstep !old(en.exiting) ==> vm.lockstep(en.vm)
 //@   ensures[C17] @clean old(!fl(en, state.FLAG_DIRTY) && !en.exiting && len(en.exit) == 0 && en.execd) ==> result == nil && vm.untouched(en.vm)
 //@     && unchanged(en.exit, en.exiting, en.execd) && en.st.Code == old(en.st.Code) && en.st.input == old(en.st.input)
 
